@@ -28,6 +28,12 @@ RULE = ("random/structured model graphs (2-6 variables, 0-3 mutable variables pe
 VARNAMES = ["x", "y", "z", "s", "d", "w", "t", "u", "l", "v"]
 UNKNOWN = 77                 # id of a name that is no variable of the model ("foo")
 SIG_EXTRA_KW = "Distribution.logd|main-positional:other-keywords-ignored"
+SIG_POST_KW = "Posterior._condition|own-parameter-by-keyword"
+STATE = {"strict": True, "pnamed": False}      # which repair state the implementation is in (probed per run)
+
+
+def flags():
+    return "%s %s" % (cbool(STATE["pnamed"]), cbool(STATE["strict"]))
 
 
 def S(v):
@@ -174,6 +180,10 @@ def graph(rng, shape):
         fs = [F(0, [fx()]), F(1, []), F(2, [fx(), fx()])]
     elif shape == "single":
         fs = [F(0, [fx()])]
+    elif shape == "threearg":           # a 3-argument callable (staged over three steps) and multi-argument callables in EVERY slot
+        fs = [F(0, [fx()]), F(1, [fn(0)]), F(2, []), F(3, [fn(2, 0, 1), fx(), fn(1, 2)]), F(4, [fn(3, 0), fn(0, 3, 2)])]
+    elif shape == "multifirst":         # multi-argument callable FIRST, single-argument ones after it, shared arguments
+        fs = [F(2, [fn(1, 0), fn(0), fx(), fn(1)]), F(0, [fx()]), F(1, [fn(0)]), F(3, [fn(0, 2), fn(2, 1, 0)])]
     elif shape == "indeproot":          # p(d) p(x|d) p(b): an independent root next to a dependent pair
         fs = [F(0, [fx()]), F(1, [fn(0), fx()]), F(2, [fx()])]
     elif shape == "random":
@@ -204,7 +214,7 @@ def graph(rng, shape):
     return fs, 1 + max(f["name"] for f in fs)
 
 
-SHAPES = ["pair", "chain", "hier", "hier5", "mlp2", "mlp3h", "twoarg", "unset", "unset2", "cycle", "indep", "indeproot", "single", "random"]
+SHAPES = ["pair", "chain", "hier", "hier5", "mlp2", "mlp3h", "twoarg", "unset", "unset2", "cycle", "indep", "indeproot", "threearg", "multifirst", "single", "random"]
 PARTS = ["none", "leaves", "allbut1", "all", "roots", "random"]
 STYLES = ["one-kw", "one-pos", "seq-kw", "grouped-mixed"]
 
@@ -351,10 +361,21 @@ def name_of(names, key):
     return "foo" if key == UNKNOWN else names[key]
 
 
+def stack_vec(vals, ids):
+    return [a for v in ids for a in (vals[v] if isinstance(vals[v], (list, tuple)) else [vals[v]])]
+
+
 def do_call(f, names, vals, call):
-    args = [np.array(vals[j]) for j in call["args"]]
-    kw = {name_of(names, k): np.array(vals[j]) for k, j in call["kw"]}
+    if "stack" in call:
+        return f(np.array(stack_vec(vals, call["stack"])))
+    args = [toarg(vals[j]) for j in call["args"]]
+    kw = {name_of(names, k): toarg(vals[j]) for k, j in call["kw"]}
     return f(*args, **kw)
+
+
+def toarg(v):
+    """scalars of real families are passed as Python floats, vectors as arrays"""
+    return v if isinstance(v, float) else np.array(v)
 
 
 def num(v):
@@ -433,7 +454,7 @@ def cvl(l):
 
 
 def cqval(v):
-    return clist([cq(a) for a in v])
+    return clist([cq(a) for a in (v if isinstance(v, (list, tuple)) else [v])])
 
 
 def cslot(s):
@@ -461,6 +482,8 @@ def cdens(spec, vals, value, pre):
 
 
 def ccall(vals, call):
+    if "stack" in call:
+        return "(%s, [])" % clist([cqval(stack_vec(vals, call["stack"]))])
     return "(%s, %s)" % (clist([cqval(vals[j]) for j in call["args"]]),
                          clist(["(%s, %s)" % (cvar(k), cqval(vals[j])) for k, j in call["kw"]]))
 
@@ -495,9 +518,29 @@ def witness_extra_kw(cuqi):
     return (len(got) > 0, "x ~ PolyDist(q0=lambda z: ...); x.logd(z, x, <kw>): " + "; ".join(got) if got else "refused")
 
 
+def witness_posterior_kw(cuqi):
+    """J = p(y|x) p(x); J(y=data) is a Posterior in x; J(y=data)(x=value) must be the joint log-density at (x, y)"""
+    PD = polydist_class(cuqi)
+    fx = {"name": 0, "dim": 2, "slots": [{"kind": "fixed", "val": [2]}], "c": 1, "m": [1], "q": 1, "r": 1}
+    fy = {"name": 1, "dim": 2, "slots": [{"kind": "fn", "args": [0], "a": [2], "b": 1}], "c": 3, "m": [1], "q": 1, "r": 1}
+    vals = {0: [1, 2], 1: [3, -1]}
+    total = factor_value_py(fx, vals) + factor_value_py(fy, vals)
+    J = cuqi.distribution.JointDistribution(PD(fy, ["x", "y"]), PD(fx, ["x", "y"]))
+    post = J(y=np.array(vals[1]))
+    try:
+        r = post(x=np.array(vals[0]))
+        v = num(r.logd())
+        if v == total:
+            return (False, "J(y=data)(x=value).logd() = %s = joint log-density" % v)
+        return (True, "J(y=data)(x=value).logd() = %s, joint log-density is %s" % (v, total))
+    except Exception as e:
+        return (True, "J = p(y|x)p(x): J(y=data) is a Posterior in x, J(y=data)(x=value) raises %s(%s) although J(y=data, x=value).logd() = %s" % (
+            type(e).__name__, str(e)[:80], total))
+
+
 def known_witnesses(ctx):
     import cuqi
-    return {SIG_EXTRA_KW: witness_extra_kw(cuqi)}
+    return {SIG_EXTRA_KW: witness_extra_kw(cuqi), SIG_POST_KW: witness_posterior_kw(cuqi)}
 
 
 # ------------------------------------------------------------------------------------------
@@ -579,7 +622,7 @@ def build_case(ctx, cuqi, strict, shape, part, style, rng, variant="joint"):
                 sig = SIG_EXTRA_KW if (fk == 3 and ev["form"] in ("double", "unknown") and ev["args"]) else "not-refused|kind%d|%s" % (fk, ev["form"])
                 break
     expr = "check_run %s 0%%Q %s %s %s %s" % (
-        cbool(strict), clist([cdens(f, vals, fvalue[f["name"]], f["name"] in pre) for f in fs]),
+        flags(), clist([cdens(f, vals, fvalue[f["name"]], f["name"] in pre) for f in fs]),
         clist([ccall(vals, st) for st in steps[:len(obs)]]), clist([cstage(ob) for ob in obs]),
         cevals(vals, evals, outs) if final is not None else "[]")
     trivial = (not fix) and not steps
@@ -643,7 +686,7 @@ def stacked_case(ctx, cuqi, shape, part, rng):
     meta = {"family": "poly", "variant": "stacked", "shape": shape, "part": part, "names": names, "factors": fs,
             "values": {str(k): v for k, v in vals.items()}, "steps": steps, "stacked": x, "form": form}
     vals = eff
-    expr = "check_stacked 0%%Q %s %s %s %s" % (clist([cdens(f, vals, fvalue[f["name"]], False) for f in fs]),
+    expr = "check_stacked %s 0%%Q %s %s %s %s" % (flags(), clist([cdens(f, vals, fvalue[f["name"]], False) for f in fs]),
                                               clist([ccall(vals, st) for st in steps]), cqval(x), copt(out, cq))
     return Case(expr=expr, meta=meta, cell="poly/stacked/%s/%s/%s" % (shape, part, form), kind="EXACT", impl_fail=fail, signature=sig)
 
@@ -734,7 +777,7 @@ def dens_level_case(ctx, cuqi, strict, rng, which):
                 break
     meta = {"family": "poly", "variant": "dens", "which": which, "names": names, "factors": [spec],
             "values": {str(k): v for k, v in vals.items()}, "steps": steps, "evals": evals}
-    expr = "check_run_dens %s 0%%Q %s %s %s %s" % (cbool(strict), cdens(spec, vals, value, False),
+    expr = "check_run_dens %s 0%%Q %s %s %s %s" % (flags(), cdens(spec, vals, value, False),
                                                   clist([ccall(vals, st) for st in steps[:len(obs)]]),
                                                   clist([cstage(ob) for ob in obs]),
                                                   cevals(vals, evals, outs) if final is not None else "[]")
@@ -784,8 +827,9 @@ def slots_case(ctx, cuqi, rng):
 # branching histories: all objects kept alive, earlier objects re-evaluated after every step, several
 # children from the same parent (both orders, identical conditioning repeated)
 # ------------------------------------------------------------------------------------------
-HSHAPES = ["indeproot", "indep", "pair", "chain", "hier", "hier5", "mlp2", "mlp3h", "twoarg", "unset", "random"]
+HSHAPES = ["indeproot", "indep", "pair", "chain", "hier", "hier5", "mlp2", "mlp3h", "twoarg", "threearg", "multifirst", "unset", "random"]
 HKINDS = ["dist", "posterior", "mlp", "joint"]
+HIST_VARIANTS = ("history", "problem-history", "dens-history")
 
 
 def subset_for_kind(rng, fs, n, kind):
@@ -818,114 +862,352 @@ def full_call(rng, ps, positional=False):
     return {"args": [], "kw": [[v, v] for v in kwv]}
 
 
-def history_program(rng, fs, n, kind, order):
-    """list of ops; ("cond", src, call, fixed-set-after) / ("eval", src, call).  Object 0 = the joint."""
+class Prog:
+    """a program over live objects (object 0 = start).  Ops:
+         ("cond", src, call, tag)        obj(args, keywords)            tag: "" | "postkw" (Posterior on its own parameter by keyword)
+         ("eval", src, call, expect)     obj.logd(...)                  expect: number, or None = must raise
+         ("stack", src)                  obj._as_stacked()
+         ("bpinit", src, kw)             BayesianProblem(*factors, **data)._target      (= conditioning the joint)
+         ("setdata", src, kw, ok)        problem.set_data(**data)._target               (ok: False = must be refused)
+         ("view", which, src, expect_ok) problem.likelihood / problem.prior
+       and per object: params (ordered), flavour, expected value of a complete evaluation"""
+
+    def __init__(self, rng, fs, fvalue):
+        self.rng, self.fs, self.fvalue = rng, fs, fvalue
+        self.total = sum(fvalue.values())
+        self.ops = []
+        self.objs = [{"book": Book(fs, []), "flav": "joint", "expect": self.total, "reduced": False, "alive": True}]
+
+    def params(self, i):
+        o = self.objs[i]
+        return o["params"] if "params" in o else o["book"].params()
+
+    def kind(self, i):
+        o = self.objs[i]
+        if o["flav"] in ("lik", "prior", "E"):
+            return o["flav"]
+        k = o["book"].kind()
+        if not o["reduced"]:
+            return "joint"
+        return k
+
+    def eval_one(self, i):
+        o = self.objs[i]
+        if not o["alive"]:
+            return
+        ps = self.params(i)
+        if o["flav"] == "stacked":
+            call = {"args": [], "kw": [], "stack": list(ps)}
+        else:
+            call = full_call(self.rng, ps, positional=self.rng.random() < 0.3)
+        self.ops.append(("eval", i, call, o["expect"]))
+
+    def eval_all(self):
+        for i in range(len(self.objs)):
+            self.eval_one(i)
+
+    def new(self, **o):
+        o.setdefault("alive", True)
+        self.objs.append(o)
+        return len(self.objs) - 1
+
+    def cond(self, src, sub, positional=False):
+        o = self.objs[src]
+        sub = [v for v in sub if v in self.params(src)]
+        b = Book(self.fs, [])
+        b.fixed = set(o["book"].fixed) | set(sub)
+        kwv = list(sub); self.rng.shuffle(kwv)
+        tag = ""
+        alive = True
+        if self.kind(src) == "posterior" and sub:
+            if positional:
+                call = {"args": list(sub), "kw": []}
+            else:
+                call = {"args": [], "kw": [[v, v] for v in kwv]}
+                tag = "postkw"
+                alive = STATE["pnamed"]
+        elif positional and self.params(src)[:len(sub)] == sorted(sub, key=self.params(src).index) and o["flav"] != "E":
+            call = {"args": self.params(src)[:len(sub)], "kw": []}
+        else:
+            call = {"args": [], "kw": [[v, v] for v in kwv]}
+        self.ops.append(("cond", src, call, tag))
+        flav = "joint"
+        if o["flav"] == "stacked" and (len(b.params()) != 1):
+            flav = "stacked"          # copy(self) keeps the class unless the reduction builds another object
+        idx = self.new(book=b, flav=flav, expect=self.total, reduced=True, alive=alive)
+        self.eval_all()
+        return idx
+
+    def stack(self, src):
+        o = self.objs[src]
+        self.ops.append(("stack", src))
+        idx = self.new(book=o["book"], flav="stacked", expect=self.total, reduced=False)
+        self.eval_all()
+        return idx
+
+
+def history_program(rng, fs, n, kind, order, fvalue, with_stack=True):
     S = subset_for_kind(rng, fs, n, kind)
     if S is None:
         return None
     S2 = rng.sample(range(n), rng.randint(1, max(1, n - 1)))
     if sorted(S2) == sorted(S) and n > 1:
         S2 = [v for v in range(n) if v not in S][:1] or S2
-    books = [Book(fs, [])]              # bookkeeping per live object
-    reduced = [False]
-    ops = []
-
-    def params(i):
-        return books[i].params()
-
-    def eval_all():
-        for i in range(len(books)):
-            ops.append(("eval", i, full_call(rng, params(i), positional=rng.random() < 0.3)))
-
-    def cond(src, sub):
-        sub = [v for v in sub if v in params(src)]
-        b = Book(fs, [])
-        b.fixed = set(books[src].fixed) | set(sub)
-        kwv = list(sub); rng.shuffle(kwv)
-        ops.append(("cond", src, {"args": [], "kw": [[v, v] for v in kwv]}))
-        books.append(b); reduced.append(True)
-        eval_all()
-        return len(books) - 1
-
-    eval_all()
+    P = Prog(rng, fs, fvalue)
+    P.eval_all()
     seq = [S, S, S2] if order == 0 else [S2, S, S]
-    kids = [cond(0, sub) for sub in seq]
-    # a grand-child from a child that can still be conditioned (not a Posterior: name inference)
+    kids = [P.cond(0, sub) for sub in seq]
+    # grand-children: a Posterior on its own parameter (by keyword, and positionally); another child on part of its rest
+    done_post = False
     for kdx in kids:
-        b = books[kdx]
-        if b.params() and not (b.kind() == "posterior"):
-            rest = b.params()
-            cond(kdx, rng.sample(rest, rng.randint(1, len(rest))))
+        ps = P.params(kdx)
+        if not ps:
+            continue
+        if P.kind(kdx) == "posterior":
+            if not done_post:
+                P.cond(kdx, ps, positional=True)
+                P.cond(kdx, ps, positional=False)
+                done_post = True
+            continue
+        P.cond(kdx, rng.sample(ps, rng.randint(1, len(ps))), positional=rng.random() < 0.3)
+        break
+    if not with_stack:
+        P.cond(0, S)
+        return P
+    # the stacked view of the parent and of a child that is still a joint; conditioning the stacked objects
+    s0 = P.stack(0)
+    P.cond(s0, S if order == 0 else S2)
+    for kdx in kids:
+        if P.kind(kdx) == "joint" and len(P.params(kdx)) >= 2:
+            sk = P.stack(kdx)
+            ps = P.params(sk)
+            P.cond(sk, rng.sample(ps, rng.randint(1, len(ps) - 1)), positional=rng.random() < 0.3)
             break
     # the parent once more, the identical conditioning a third time
-    cond(0, S)
-    return ops, [sorted(b.fixed) for b in books]
+    P.cond(0, S)
+    return P
 
 
-def run_history(cuqi, start, names, vals, ops):
-    """execute a program on the real objects; returns per-op observation (stage obs for cond, value for eval)"""
-    objs, res = [start], []
+def problem_program(rng, fs, n, kind, fvalue):
+    """BayesianProblem(*factors, **data), set_data, and its likelihood / prior / posterior views of the same joint"""
+    S = subset_for_kind(rng, fs, n, kind)
+    if S is None:
+        return None
+    P = Prog(rng, fs, fvalue)
+    P.eval_all()
+    S = list(S); rng.shuffle(S)
+    cut = rng.randint(0, len(S))
+    first, second = S[:cut], S[cut:]
+
+    def target_op(op, src, sub, ok=True):
+        b = Book(fs, [])
+        b.fixed = set(P.objs[src]["book"].fixed) | set(sub)
+        kw = [[v, v] for v in sub]
+        P.ops.append((op, src, kw) if op == "bpinit" else (op, src, kw, ok))
+        idx = P.new(book=b, flav="joint", expect=P.total, reduced=True, alive=ok)
+        P.eval_all()
+        return idx
+
+    t = target_op("bpinit", 0, first)
+    if second or rng.random() < 0.5:
+        ok = P.kind(t) in ("joint", "mlp")          # set_data refuses once the target is no longer a JointDistribution
+        t2 = target_op("setdata", t, second, ok)
+        if ok:
+            t = t2
+    if P.kind(t) == "posterior":
+        x = P.params(t)[0]
+        b = P.objs[t]["book"]
+        likf = [f for f in fs if f["name"] in b.fixed and (deps(f) - b.fixed)][0]
+        for which, flav, val in ((0, "lik", fvalue[likf["name"]]), (1, "prior", fvalue[x])):
+            P.ops.append(("view", which, t, True))
+            P.new(book=b, flav=flav, expect=val, params=[x], reduced=True)
+            P.eval_all()
+        # the data can no longer be set
+        target_op("setdata", t, [], False)
+    else:
+        P.ops.append(("view", rng.randint(0, 1), t, False))
+        P.new(book=P.objs[t]["book"], flav="E", expect=None, params=[], reduced=True, alive=False)
+    # the joint itself conditioned after the problem was built from the same factor objects
+    P.cond(0, S)
+    return P
+
+
+def run_history(cuqi, start, names, vals, ops, facs=None):
+    """execute a program on the real objects; returns per-op observation (stage obs for creating ops, value for eval)"""
+    objs, res, bps = [start], [], {}
     for op in ops:
-        if op[0] == "cond":
-            try:
-                o = do_call(objs[op[1]], names, vals, op[2])
-                if o is None:
-                    raise TypeError("conditioning returned None")
-                res.append(observe_stage(cuqi, o, names))
-            except Exception:
-                o = None
-                res.append(None)
-            objs.append(o)
-            if o is None:
-                break
-        else:
+        kind = op[0]
+        if kind == "eval":
             try:
                 res.append(num(do_call(objs[op[1]].logd, names, vals, op[2])))
             except Exception:
                 res.append(None)
+            continue
+        try:
+            if kind == "cond":
+                o = do_call(objs[op[1]], names, vals, op[2])
+            elif kind == "stack":
+                o = objs[op[1]]._as_stacked()
+            elif kind == "bpinit":
+                from cuqi.problem import BayesianProblem
+                bp = BayesianProblem(*facs, **{name_of(names, k): np.array(vals[j]) for k, j in op[2]})
+                o = bp._target
+                bps[len(objs)] = bp
+            elif kind == "setdata":
+                bp = bps[op[1]]
+                bp.set_data(**{name_of(names, k): np.array(vals[j]) for k, j in op[2]})
+                o = bp._target
+                bps[len(objs)] = bp
+            elif kind == "view":
+                bp = bps[op[2]]
+                o = bp.likelihood if op[1] == 0 else bp.prior
+                if op[1] == 0 and bp.posterior is not bp._target:
+                    raise RuntimeError("posterior view is not the target")
+            if o is None:
+                raise TypeError("returned None")
+            res.append(observe_stage(cuqi, o, names))
+        except Exception:
+            o = None
+            res.append(None)
+        objs.append(o)
     return res
 
 
-def history_oracle(ops, res, total):
+def history_oracle(ops, res, total, rel=0):
+    """the property on a program: every evaluation of every live object = its expected value (the joint log-density at
+    the complete assignment; for the likelihood/prior views their factor), creating calls raise only where stated"""
     newest = 0
     for op, r in zip(ops, res):
-        if op[0] == "cond":
-            newest += 1
-            if r is None:
-                return "conditioning object %d raised on a well-formed call" % op[1], "condition-raised|history"
-        else:
-            if r != total:
-                what = "earlier object %d re-evaluated after %d later object(s) were derived" % (op[1], newest - op[1]) if op[1] < newest else "newest object %d" % op[1]
-                return ("%s gives %s, the joint log-density at the complete assignment is %s" % (what, None if r is None else float(r), total),
-                        "shared-state|earlier-object-changed" if op[1] < newest else "value|history-child")
+        kind = op[0]
+        if kind == "eval":
+            exp = op[3]
+            if exp is None:
+                continue
+            if r is None or abs(r - exp) > rel * (1 + abs(exp)):
+                older = op[1] < newest
+                what = ("earlier object %d re-evaluated after %d later object(s) were derived" % (op[1], newest - op[1])) if older else "newest object %d" % op[1]
+                return ("%s gives %s, expected %s" % (what, None if r is None else float(r), exp),
+                        "shared-state|earlier-object-changed" if older else "value|history-child")
+            continue
+        newest += 1
+        if kind == "cond" and r is None:
+            if op[3] == "postkw":
+                if not STATE["pnamed"]:
+                    return ("object %d is a Posterior; conditioning it on its own parameter by keyword raised" % op[1], SIG_POST_KW)
+                return ("object %d is a Posterior; conditioning it on its own parameter by keyword raised" % op[1], "condition-raised|posterior-keyword")
+            return "conditioning object %d raised on a well-formed call" % op[1], "condition-raised|history"
+        if kind in ("stack", "bpinit") and r is None:
+            return "%s on object %d raised" % (kind, op[1]), "condition-raised|" + kind
+        if kind == "setdata":
+            if op[3] and r is None:
+                return "set_data on a joint target raised", "condition-raised|set_data"
+            if not op[3] and r is not None:
+                return "set_data on a target that is no longer a joint did not raise", "not-refused|set_data"
+        if kind == "view" and op[3] and r is None:
+            return "likelihood/prior view of a Posterior target raised", "condition-raised|view"
     return None, ""
 
 
-def chop(vals, op, r):
-    if op[0] == "cond":
-        return "(OpCond %s %s %s)" % (cnat(op[1]), ccall(vals, op[2]), cstage(r))
-    return "(OpEval %s %s %s)" % (cnat(op[1]), ccall(vals, op[2]), copt(r, cq))
+def chop(vals, op, r, pre="q", cst=None):
+    cst = cst or cstage
+    kind = op[0]
+    if kind == "eval":
+        return "(%sEval %s %s %s)" % (pre, cnat(op[1]), ccall(vals, op[2]), copt(r, cq) if pre == "q" else r)
+    if kind in ("cond", "bpinit"):
+        call = op[2] if kind == "cond" else {"args": [], "kw": op[2]}
+        return "(%sCond %s %s %s)" % (pre, cnat(op[1]), ccall(vals, call), cst(r))
+    if kind == "stack":
+        return "(%sStack %s %s)" % (pre, cnat(op[1]), cst(r))
+    if kind == "setdata":
+        return "(%sSetData %s %s %s)" % (pre, cnat(op[1]), clist(["(%s, %s)" % (cvar(k), cqval(vals[j])) for k, j in op[2]]), cst(r))
+    if kind == "view":
+        return "(%sView %s %s %s)" % (pre, cnat(op[1]), cnat(op[2]), cst(r))
+    raise ValueError(kind)
 
 
-def history_case(ctx, cuqi, strict, shape, kind, order, rng):
+def history_case(ctx, cuqi, strict, shape, kind, order, rng, variant="history"):
     PD = polydist_class(cuqi)
     fs, n = graph(rng, shape)
-    prog = history_program(rng, fs, n, kind, order)
-    if prog is None:
-        return None
-    ops, fixed_sets = prog
     names = rng.sample(VARNAMES, n)
     vals = {f["name"]: rand_vec(rng, f["dim"]) for f in fs}
     fvalue = {f["name"]: factor_value_py(f, vals) for f in fs}
-    total = sum(fvalue.values())
-    start = cuqi.distribution.JointDistribution(*[PD(f, names) for f in fs])
-    res = run_history(cuqi, start, names, vals, ops)
+    P = history_program(rng, fs, n, kind, order, fvalue) if variant == "history" else problem_program(rng, fs, n, kind, fvalue)
+    if P is None:
+        return None
+    ops, total = P.ops, P.total
+    facs = [PD(f, names) for f in fs]
+    start = cuqi.distribution.JointDistribution(*facs)
+    res = run_history(cuqi, start, names, vals, ops, facs)
     fail, sig = history_oracle(ops, res, total)
-    meta = {"family": "poly", "variant": "history", "shape": shape, "branch": kind, "order": order, "names": names, "factors": fs,
+    meta = {"family": "poly", "variant": variant, "shape": shape, "branch": kind, "order": order, "names": names, "factors": fs,
             "values": {str(k): v for k, v in vals.items()}, "ops": [list(op) for op in ops[:len(res)]]}
-    expr = "check_history %s 0%%Q %s %s" % (cbool(strict), clist([cdens(f, vals, fvalue[f["name"]], False) for f in fs]),
+    expr = "check_history %s 0%%Q %s %s" % (flags(), clist([cdens(f, vals, fvalue[f["name"]], False) for f in fs]),
                                            clist([chop(vals, op, r) for op, r in zip(ops, res)]))
-    return Case(expr=expr, meta=meta, cell="poly/history/%s/%s/order%d" % (shape, kind, order), kind="EXACT", impl_fail=fail, signature=sig)
+    return Case(expr=expr, meta=meta, cell="poly/%s/%s/%s/order%d" % (variant, shape, kind, order), kind="EXACT", impl_fail=fail, signature=sig)
+
+
+def dens_history_case(ctx, cuqi, rng, nargs):
+    """branching histories on ONE Distribution object: several children of the same distribution / likelihood, conditioning
+    variables fixed in separate steps (a callable with `nargs` arguments staged over `nargs` calls), every earlier object
+    re-evaluated after every step"""
+    PD = polydist_class(cuqi)
+    n = nargs + 2
+    others = list(range(1, n))
+    big = rng.sample(others, nargs)
+    slots = [mk_slot(rng, "fn", big)]
+    for _ in range(rng.randint(0, 2)):
+        k = rng.randint(1, min(3, len(others)))
+        slots.insert(rng.randint(0, len(slots)), mk_slot(rng, "fn", rng.sample(others, k)) if rng.random() < 0.8 else mk_slot(rng, "fixed", []))
+    spec = mk_factor(rng, 0, rng.randint(1, 3), slots)
+    names = rng.sample(VARNAMES, n)
+    vals = {0: rand_vec(rng, spec["dim"])}
+    for v in others:
+        vals[v] = rand_vec(rng, rng.randint(1, 3))
+    cv = cond_vars_py(slots)
+    value = factor_value_py(spec, vals)
+    objs = [{"bound": [], "lik": False}]
+    ops = []
+
+    def params(i):
+        o = objs[i]
+        return [v for v in cv if v not in o["bound"]] + ([] if o["lik"] else [0])
+
+    def eval_all():
+        for i in range(len(objs)):
+            ops.append(("eval", i, full_call(rng, params(i), positional=rng.random() < 0.4), value))
+
+    def cond(src, sub, positional=False):
+        o = objs[src]
+        free = [v for v in cv if v not in o["bound"]]
+        if positional:
+            sub = free[:max(1, min(len(sub), len(free)))] if free else []
+            call = {"args": list(sub), "kw": []}
+        else:
+            kwv = list(sub); rng.shuffle(kwv)
+            call = {"args": [], "kw": [[v, v] for v in kwv]}
+        ops.append(("cond", src, call, ""))
+        objs.append({"bound": o["bound"] + [v for v in sub if v != 0], "lik": o["lik"] or (0 in sub)})
+        eval_all()
+        return len(objs) - 1
+
+    eval_all()
+    staged = list(big); rng.shuffle(staged)
+    cur = 0
+    for v in staged:                       # the arguments of the multi-argument callable one per call
+        cur = cond(cur, [v], positional=False)
+    a = cond(0, [staged[0]])               # a second child of the ORIGINAL distribution: same variable again
+    b = cond(0, [0])                       # the original as a likelihood
+    cond(b, [staged[-1]])                  # and the likelihood conditioned
+    cond(a, [0] + [v for v in cv if v != staged[0]][:1])
+    cond(0, cv[:1], positional=True)
+    d = PD(spec, names)
+    res = run_history(cuqi, d, names, vals, ops)
+    fail, sig = history_oracle(ops, res, value)
+    meta = {"family": "poly", "variant": "dens-history", "names": names, "factors": [spec],
+            "values": {str(k): v for k, v in vals.items()}, "ops": [list(op) for op in ops[:len(res)]]}
+    expr = "check_history_dens %s 0%%Q %s %s" % (flags(), cdens(spec, vals, value, False),
+                                                clist([chop(vals, op, r) for op, r in zip(ops, res)]))
+    return Case(expr=expr, meta=meta, cell="poly/dens-history/%darg" % nargs, kind="EXACT", impl_fail=fail, signature=sig)
 
 
 def guarded(fn, gv, *a, **k):
@@ -946,6 +1228,9 @@ def run(ctx):
     cases = []
     still, detail = witness_extra_kw(cuqi)
     strict = not still
+    pstill, pdetail = witness_posterior_kw(cuqi)
+    STATE["strict"], STATE["pnamed"] = strict, not pstill
+    ctx.note("implementation state: a Posterior %s conditioning on its own parameter by keyword" % ("refuses" if pstill else "accepts"))
     ctx.note("implementation state: Distribution.logd %s keywords next to a positional main parameter" % ("ignores other" if still else "refuses other"))
     reps = ctx.n(2, 8)
     kinds_seen = {}
@@ -980,12 +1265,19 @@ def run(ctx):
     for shape in HSHAPES:
         for kind in HKINDS:
             for order in (0, 1):
-                for _ in range(ctx.n(1, 5)):
+                for _ in range(ctx.n(1, 4)):
                     c = guarded(history_case, "history", ctx, cuqi, strict, shape, kind, order, rng)
                     if c is not None:
                         cases.append(c)
                         hist_cells[kind] = hist_cells.get(kind, 0) + 1
+            for _ in range(ctx.n(1, 4)):
+                c = guarded(history_case, "problem-history", ctx, cuqi, strict, shape, kind, 0, rng, variant="problem-history")
+                if c is not None:
+                    cases.append(c)
     ctx.note("branching histories per reduction branch: %s" % hist_cells)
+    for nargs in (1, 2, 3, 4):
+        for _ in range(ctx.n(6, 40)):
+            cases.append(guarded(dens_history_case, "dens-history", ctx, cuqi, rng, nargs))
     for which in ("fn", "unset"):
         for _ in range(ctx.n(60, 400)):
             cases.append(guarded(dens_level_case, "dens", ctx, cuqi, strict, rng, which))
@@ -1073,93 +1365,63 @@ def real_models(cuqi, rng):
     return out
 
 
+def cfloat(x):
+    x = float(x)
+    if math.isnan(x) or math.isinf(x):
+        raise ValueError("non-finite log-density")
+    return "(%s)%%float" % x.hex()
+
+
+def cstage_f(ob):
+    if ob is None:
+        return "None"
+    k, ps, c = ob
+    return "(Some (%s, %s, %s))" % (cnat(k), cvl(ps), "None" if c is None else "(Some %s)" % cfloat(c))
+
+
 def real_family_cases(ctx, cuqi, strict):
+    """real CUQIpy families: the model's factor functions are tables of the values of the UNTOUCHED factors (their own logd at
+    the complete assignment); log-densities are binary64 floats added with IEEE addition in the model's order, and every
+    value / folded _constant is compared with the implementation BIT FOR BIT (the independent oracle uses 1e-9 relative)"""
     rng = ctx.rng
     cases = []
-    tol = "(1 # 1000000000)%Q"
     for rep in range(ctx.n(1, 4)):
         for label, dists, values in real_models(cuqi, rng):
             names = [d_.name for d_ in dists]
             n = len(names)
-            # factor structure as the model sees it: conditioning variables of the untouched factor, table value = its own logd
-            asg = {k: (float(v) if np.ndim(v) == 0 else np.asarray(v, dtype=float)) for k, v in values.items()}
-            fvals, cvs = {}, {}
+            idx = {nm: i for i, nm in enumerate(names)}
+            vals = {idx[k]: (float(v) if np.ndim(v) == 0 else [float(a) for a in np.asarray(v, dtype=float)]) for k, v in values.items()}
+            asg = {k: toarg(vals[idx[k]]) for k in names}
+            fs, fvalue = [], {}
             for d_ in dists:
                 cv = list(d_.get_conditioning_variables())
-                cvs[d_.name] = cv
-                fvals[d_.name] = float(np.asarray(d_.logd(**{k: asg[k] for k in cv + [d_.name]})).ravel()[0])
-            total = sum(Fraction(*fvals[k].as_integer_ratio()) for k in names)
-            idx = {nm: i for i, nm in enumerate(names)}
-            qv = lambda nm: [frac(float(a)) for a in np.asarray(asg[nm]).ravel()]
+                fs.append({"name": idx[d_.name], "dim": int(d_.dim), "slots": [{"kind": "fn", "args": [idx[k] for k in cv]}] if cv else [{"kind": "fixed"}]})
+                fvalue[idx[d_.name]] = float(np.asarray(d_.logd(**{k: asg[k] for k in cv + [d_.name]})).ravel()[0])
+            for kind in HKINDS:
+                for order in (0, 1):
+                    P = history_program(rng, fs, n, kind, order, fvalue, with_stack=False)
+                    if P is None:
+                        continue
+                    start = cuqi.distribution.JointDistribution(*dists)
+                    res = run_history(cuqi, start, names, vals, P.ops, dists)
+                    fail, sig = history_oracle(P.ops, res, P.total, rel=1e-9)
+                    if sig and sig != SIG_POST_KW:
+                        sig = sig + "|real|" + label
 
-            def cfac(d_):
-                key = [qv(k) for k in cvs[d_.name]] + [qv(d_.name)]
-                return "(qD (qmk %s %s [%s] 0 [(%s, %s)]))" % (
-                    cvar(idx[d_.name]), cnat(int(d_.dim)), ("SFn " + cvl([idx[k] for k in cvs[d_.name]])) if cvs[d_.name] else "SFixed",
-                    clist([cqval(k) for k in key]), cq(fvals[d_.name]))
+                    def cfac(f):
+                        key = [vals[j] for j in cond_vars_py(f["slots"])] + [vals[f["name"]]]
+                        return "(fD (fmk %s %s %s [(%s, %s)]))" % (cvar(f["name"]), cnat(f["dim"]), clist([cslot(sl) for sl in f["slots"]]),
+                                                                  clist([cqval(k) for k in key]), cfloat(fvalue[f["name"]]))
 
-            subsets = []
-            for k in range(0, n + 1):
-                subsets += list(itertools.combinations(range(n), k))
-            if not ctx.thorough:
-                subsets = [s for s in subsets if len(s) in (0, 1, n - 1, n)] + rng.sample(subsets, min(4, len(subsets)))
-            for sub in subsets:
-                order = list(sub)
-                rng.shuffle(order)
-                style = rng.choice(["one", "seq"])
-                groups = [order] if style == "one" else [[v] for v in order]
-                J = cuqi.distribution.JointDistribution(*dists)
-                o, obs, steps = J, [], []
-                fixed = set()
-                try:
-                    for g in groups:
-                        from cuqi.distribution import Posterior
-                        if isinstance(o, Posterior) or not g:
-                            break
-                        steps.append({"args": [], "kw": [[v, v] for v in g]})
-                        o = o(**{names[v]: asg[names[v]] for v in g})
-                        fixed |= set(g)
-                        k = kind_of(cuqi, o)
-                        ps = [idx[p] for p in o.get_parameter_names()]
-                        c = frac(float(np.asarray(o._constant).ravel()[0])) if k in (2, 3, 4, 5) else None
-                        obs.append([k, ps, c])
-                except Exception as e:
-                    obs.append(None); o = None
-                cur = [v for v in range(n) if v not in fixed]
-                evals, outs = [], []
-                if o is not None:
-                    kwv = list(cur); rng.shuffle(kwv)
-                    evals.append({"form": "kw", "args": [], "kw": [[v, v] for v in kwv], "ok": True})
-                    evals.append({"form": "pos", "args": list(cur), "kw": [], "ok": True})
-                    if cur:
-                        evals.append({"form": "missing", "args": [], "kw": [[v, v] for v in kwv[1:]], "ok": False})
-                    for ev in evals:
-                        try:
-                            r = do_call_real(o.logd, names, asg, ev)
-                            outs.append(frac(float(np.asarray(r).ravel()[0])))
-                        except Exception:
-                            outs.append(None)
-                fail, sig = None, ""
-                if any(ob is None for ob in obs):
-                    fail, sig = "conditioning raised on %s" % label, "condition-raised|real|%s" % label
-                else:
-                    for ev, out in zip(evals, outs):
-                        if ev["ok"] and (out is None or abs(out - total) > Fraction(1, 10**8) * (1 + abs(total))):
-                            fail = "%s: %s evaluation gives %s, sum of the untouched factors is %s" % (label, ev["form"], None if out is None else float(out), float(total))
-                            sig = "value|real|%s" % label
-                            break
-                        if not ev["ok"] and out is not None:
-                            fail, sig = "%s: malformed evaluation returned a number" % label, "not-refused|real|%s" % label
-                            break
-                vals_q = {i: qv(nm) for nm, i in idx.items()}
-                expr = "check_run %s %s %s %s %s %s" % (
-                    cbool(strict), tol, clist([cfac(d_) for d_ in dists]),
-                    clist([ccall(vals_q, st) for st in steps[:len(obs)]]), clist([cstage(ob) for ob in obs]),
-                    cevals(vals_q, evals, outs) if o is not None else "[]")
-                meta = {"family": "real", "label": label, "subset": list(sub), "order": order, "style": style,
-                        "values": {k: np.asarray(v).tolist() for k, v in values.items()}}
-                cases.append(Case(expr=expr, meta=meta, cell="real/%s/%s" % (label, "fix%d" % len(sub)), trivial=(len(sub) == 0),
-                                  kind="EXACT", impl_fail=fail, signature=sig))
+                    def fop(op, r):
+                        if op[0] == "eval":
+                            return chop(vals, op, None if r is None else "(Some %s)" % cfloat(r), pre="f") if r is not None else \
+                                "(fEval %s %s None)" % (cnat(op[1]), ccall(vals, op[2]))
+                        return chop(vals, op, r, pre="f", cst=cstage_f)
+                    expr = "check_history_f %s %s %s" % (flags(), clist([cfac(f) for f in fs]), clist([fop(op, r) for op, r in zip(P.ops, res)]))
+                    meta = {"family": "real", "label": label, "branch": kind, "order": order,
+                            "values": {k: np.asarray(v).tolist() for k, v in values.items()}, "ops": [list(op) for op in P.ops[:len(res)]]}
+                    cases.append(Case(expr=expr, meta=meta, cell="real/%s/%s/order%d" % (label, kind, order), kind="EXACT", impl_fail=fail, signature=sig))
     return cases
 
 
@@ -1192,11 +1454,12 @@ def _rebuild(ctx, m):
 def oracle(ctx, meta):
     """re-check the property itself on the implementation for one stored case (poly family)"""
     m = meta.get("meta", meta)
-    if m.get("family") == "poly" and m.get("variant") == "history":
+    if m.get("family") == "poly" and m.get("variant") in HIST_VARIANTS:
         cuqi, names, fs, vals, facs = _rebuild(ctx, m)
         total = sum(factor_value_py(f, vals) for f in fs)
         ops = [tuple(op) for op in m["ops"]]
-        res = run_history(cuqi, cuqi.distribution.JointDistribution(*facs), names, vals, ops)
+        start = facs[0] if m["variant"] == "dens-history" else cuqi.distribution.JointDistribution(*facs)
+        res = run_history(cuqi, start, names, vals, ops, facs)
         return history_oracle(ops, res, total)[0]
     if m.get("family") != "poly" or m.get("variant") not in ("joint", "prelik", "dens", "stacked"):
         return None
@@ -1232,25 +1495,31 @@ def replay(ctx, meta):
         import cuqi
         print("witness:", witness_extra_kw(cuqi))
         return 0
-    if m.get("family") == "poly" and m.get("variant") == "history":
+    if m.get("family") == "poly" and m.get("variant") in HIST_VARIANTS:
         cuqi, names, fs, vals, facs = _rebuild(ctx, m)
-        total = sum(factor_value_py(f, vals) for f in fs)
         print("variables:", {names[k]: v for k, v in vals.items()})
         for f in fs:
             print("  factor %s | %s : value at the complete assignment %d" % (names[f["name"]], [names[j] for j in cond_vars_py(f["slots"])], factor_value_py(f, vals)))
-        print("joint log-density at the complete assignment (plain Python):", total)
+        print("joint log-density at the complete assignment (plain Python):", sum(factor_value_py(f, vals) for f in fs))
         ops = [tuple(op) for op in m["ops"]]
-        res = run_history(cuqi, cuqi.distribution.JointDistribution(*facs), names, vals, ops)
+        start = facs[0] if m["variant"] == "dens-history" else cuqi.distribution.JointDistribution(*facs)
+        res = run_history(cuqi, start, names, vals, ops, facs)
         nobj = 0
         for op, r in zip(ops, res):
-            if op[0] == "cond":
-                nobj += 1
-                print("  object %d := object %d conditioned on %s -> %s" % (nobj, op[1], [name_of(names, k) for k, _ in op[2]["kw"]],
-                      "RAISED" if r is None else "kind %d parameters %s _constant %s" % (r[0], [name_of(names, p_) for p_ in r[1]], r[2])))
-            else:
+            if op[0] == "eval":
+                c = op[2]
+                shown = ("stacked vector of %s" % [names[j] for j in c["stack"]]) if "stack" in c else [names[j] for j in c["args"]] + ["%s=" % name_of(names, k) for k, _ in c["kw"]]
                 print("  object %d .logd(%s) -> implementation %s ; property expects %s%s" % (
-                    op[1], [names[j] for j in op[2]["args"]] + ["%s=" % name_of(names, k) for k, _ in op[2]["kw"]],
-                    "RAISED" if r is None else r, total, "" if r == total else "   <-- DIFFERS"))
+                    op[1], shown, "RAISED" if r is None else r, "an error / not judged" if op[3] is None else op[3],
+                    "" if (op[3] is None or r == op[3]) else "   <-- DIFFERS"))
+                continue
+            nobj += 1
+            desc = {"cond": lambda: "object %d conditioned positional=%s keywords=%s" % (op[1], [names[j] for j in op[2]["args"]], [name_of(names, k) for k, _ in op[2]["kw"]]),
+                    "stack": lambda: "object %d ._as_stacked()" % op[1],
+                    "bpinit": lambda: "BayesianProblem(*factors, %s)._target" % [name_of(names, k) for k, _ in op[2]],
+                    "setdata": lambda: "problem of object %d .set_data(%s)._target" % (op[1], [name_of(names, k) for k, _ in op[2]]),
+                    "view": lambda: "problem of object %d .%s" % (op[2], "likelihood" if op[1] == 0 else "prior")}[op[0]]()
+            print("  object %d := %s -> %s" % (nobj, desc, "RAISED" if r is None else "kind %d parameters %s _constant %s" % (r[0], [name_of(names, p_) for p_ in r[1]], r[2])))
         return 0
     if m.get("family") != "poly" or m.get("variant") not in ("joint", "prelik", "dens"):
         print(json.dumps(m, indent=1)[:4000])
